@@ -183,6 +183,7 @@ def run(ctx: RuleContext):
     ctx.sub(check_last_dotted_component, ctx)
     ctx.sub(check_extraction_sources, ctx)
     ctx.sub(check_struct_dtype_everywhere, ctx)
+    ctx.sub(check_dtype_verdict_not_remembered, ctx)
 
 
 FAMILY_RE = {
@@ -893,3 +894,65 @@ def check_no_prefix_regex_for_strings(ctx):
                 ctx.bad("C03.3", f, c, f"string dtype specifiers are compiled into a regular expression (re.escape in {escapes[0][0].name}) which is then applied with "
                         f"`.{c.func.attr}`: a dtype name that merely starts with a specifier is accepted ('float8_e4m3fn' accepts 'float8_e4m3fnuz', 'int8' accepts 'int8x'); "
                         "string specifiers must match exactly (== / fullmatch)")
+
+
+# ------------------------------------------------------------------------ C03.9
+def check_dtype_verdict_not_remembered(ctx):
+    """C03.9: whether an array's dtype is in the category is decided from that array's dtype on every check.  A dtype name or a
+    verdict derived from it that the check stores on the annotation class / a module-level object ("last dtype seen" slots, per-class
+    verdict caches filled at check time) is a second source of the answer: written by two statements, it can be read half-updated by
+    another thread, and it outlives the array it was computed for."""
+    m = ctx.model
+    f = m.func("_array_types._MetaAbstractArray.__instancecheck_str__")
+    ctx.saw(f)
+    obj = f.params[1] if len(f.params) > 1 else "obj"
+    cls = f.params[0]
+    tainted = set()
+    changed = True
+    def is_tainted(e):
+        for x in ast.walk(e):
+            if isinstance(x, ast.Attribute) and x.attr == "dtype" and norm(x.value) == obj:
+                return True
+            if isinstance(x, ast.Name) and x.id in tainted:
+                return True
+        return False
+    while changed:
+        changed = False
+        for st in walk_scope(f.node):
+            if isinstance(st, ast.Assign) and is_tainted(st.value):
+                for t in st.targets:
+                    for x in ast.walk(t):
+                        if isinstance(x, ast.Name) and isinstance(x.ctx, ast.Store) and x.id not in tainted:
+                            tainted.add(x.id)
+                            changed = True
+            # a verdict variable set under a test of a tainted value (`in_dtypes = True` inside `if cls_dtype == dtype:`)
+            if isinstance(st, (ast.If, ast.For, ast.While)) and is_tainted(st.test if not isinstance(st, ast.For) else st.iter):
+                for sub in ast.walk(st):
+                    if isinstance(sub, ast.Assign):
+                        for t in sub.targets:
+                            if isinstance(t, ast.Name) and t.id not in tainted:
+                                tainted.add(t.id)
+                                changed = True
+    ctx.counters["dtype_derived_locals"] = len(tainted)
+    ctx.floor("C03.9", "dtype_derived_locals", 2)
+    n = 0
+    for st in walk_scope(f.node):
+        tgts = st.targets if isinstance(st, ast.Assign) else [st.target] if isinstance(st, (ast.AugAssign, ast.AnnAssign)) else []
+        val = getattr(st, "value", None)
+        for t in tgts:
+            if not isinstance(t, (ast.Attribute, ast.Subscript)) or val is None:
+                continue
+            root = t
+            while isinstance(root, (ast.Attribute, ast.Subscript)):
+                root = root.value
+            if not isinstance(root, ast.Name):
+                continue
+            shared = root.id == cls or m.resolve_name(f, root.id).kind == "modvar"
+            if shared and (is_tainted(val) or (isinstance(t, ast.Subscript) and is_tainted(t.slice))):
+                n += 1
+                ctx.bad("C03.9", f, st, f"`{short(st, 60)}` remembers a dtype name / dtype verdict of the array being checked on "
+                        f"{'the annotation class' if root.id == cls else 'the module-level `' + root.id + '`'}: the next check may be answered from it instead of from its own array's dtype "
+                        "(a slot written by two statements can be read half-updated by another thread; a verdict for one dtype is handed to another)",
+                        construct=f"dtype verdict remembered in {norm(t)}")
+    if not n:
+        ctx.ok("C03.9", f.qualname, f"none of the {len(tainted)} dtype-derived locals ({', '.join(sorted(tainted))}) is stored on the annotation class or a module-level object")
